@@ -28,7 +28,8 @@ def enc_value(v):
     if isinstance(v, (float, np.floating)):
         f = float(v)
         return int(f) if f == int(f) and abs(f) < 2 ** 31 else enc_float(f)
-    return int(v)
+    v = int(v)
+    return v if abs(v) < 2 ** 31 else (2 ** 31 - 1 if v > 0 else -(2 ** 31 - 1))     # outside TLC's integers: saturate (never a modelled value)
 
 
 class T:
